@@ -38,6 +38,14 @@ pub fn run_seed(base: u64, check: &str, idx: u64) -> u64 {
     mix(&[base, hash_str(check), idx])
 }
 
+/// The alternate build leg (`SDSIM_LEG=alt`, binary built with `--profile alt -p sdsim-mock`):
+/// the same scenarios against sd-jwt-rs compiled with feature mock_salts, without debug
+/// assertions and overflow checks.
+pub fn alt_leg() -> bool {
+    std::env::var("SDSIM_LEG").ok().as_deref() == Some("alt")
+}
+pub const ALT_LEG_CHECKS: &[&str] = &["C02", "C03", "C04", "C07", "C08", "C09", "C10", "C15"];
+
 fn verif_dir() -> String {
     std::env::var("VERIF_DIR").unwrap_or_else(|_| "/verif".to_string())
 }
@@ -206,11 +214,32 @@ struct Agg {
     crashes: Vec<(u64, u64, String)>,
     loghashes: BTreeMap<u64, String>,
     priors: BTreeMap<u64, Vec<u64>>,
+    /// campaign-wide uniqueness (salts, decoy digests): 128-bit hash -> run index
+    tokens: std::collections::HashMap<u128, u64>,
+    tokens_seen: u64,
+    /// first pair of different runs that share a token
+    token_clash: Option<(u64, u64)>,
 }
 
 impl Agg {
     fn absorb(&mut self, idx: u64, r: RunReport) {
         self.runs += 1;
+        for c in r.tokens.as_bytes().chunks(32) {
+            if let Some(v) = std::str::from_utf8(c).ok().and_then(|h| u128::from_str_radix(h, 16).ok()) {
+                self.tokens_seen += 1;
+                match self.tokens.get(&v) {
+                    Some(j) if *j != idx => {
+                        if self.token_clash.is_none() {
+                            self.token_clash = Some((*j, idx));
+                        }
+                    }
+                    Some(_) => {}
+                    None => {
+                        self.tokens.insert(v, idx);
+                    }
+                }
+            }
+        }
         self.evaluations += r.evaluations;
         for (k, v) in r.counters {
             *self.counters.entry(k).or_insert(0) += v;
@@ -593,6 +622,7 @@ fn process_violation(check: &str, tier: &str, base: u64, idx: u64, v: &Violation
     let file = json!({
         "property": fv.property, "clause": fv.clause, "signature": fv.signature, "trigger": fv.trigger,
         "found_by": {"check": check, "verif_seed": base, "run_index": idx, "run_seed": seed},
+        "build": if alt_leg() { "alt" } else { "default" },
         "minimisation": {"executions": budget.execs, "reproduced_in_fresh_process": reproduced},
         "observed": fv.detail,
         "prelude_note": if prelude.is_empty() { Value::Null } else { json!("the scenarios in `prelude` are executed first, in this order, in the same process: the violation depends on state the code under test keeps across simulated worlds") },
@@ -631,16 +661,23 @@ pub fn check_main(args: &[String]) -> i32 {
         eprintln!("unknown check {}", check);
         return 2;
     };
-    if cfg!(feature = "mock") != (check == "C16") {
+    let alt = alt_leg();
+    if alt && (!cfg!(feature = "mock") || !ALT_LEG_CHECKS.contains(&check.as_str())) {
+        println!("HARNESS-ERROR: the alternate build leg exists for {:?} and needs the sdsim-mock binary", ALT_LEG_CHECKS);
+        return 2;
+    }
+    if !alt && cfg!(feature = "mock") != (check == "C16") {
         println!("HARNESS-ERROR: check {} must run in the {} binary", check, if check == "C16" { "sdsim-mock" } else { "sdsim" });
         return 2;
     }
-    let base = base_seed();
+    // the alternate leg explores other seeds (a fifth as many runs)
+    let base = if alt { base_seed() ^ 0xa17 } else { base_seed() };
     let workers = parse_flag(args, "--workers").unwrap_or(16) as usize;
-    let runs = parse_flag(args, "--runs").unwrap_or(if tier == "thorough" { cfg.runs_thorough } else { cfg.runs_quick });
+    let full = if tier == "thorough" { cfg.runs_thorough } else { cfg.runs_quick };
+    let runs = parse_flag(args, "--runs").unwrap_or(if alt { (full / 5).max(200) } else { full });
     let wall_cap = Duration::from_secs(if tier == "thorough" { 3000 } else { 600 });
     let t0 = Instant::now();
-    println!("sdsim check={} tier={} VERIF_SEED={} runs={} workers={}", check, tier, base, runs, workers);
+    println!("sdsim check={} tier={} VERIF_SEED={} runs={} workers={}{}", check, tier, base_seed(), runs, workers, if alt { " leg=alternate-build (feature mock_salts, no debug assertions, no overflow checks)" } else { "" });
 
     let known = match known::load(&format!("{}/known_findings.jsonl", verif_dir())) {
         Ok(k) => k,
@@ -735,6 +772,23 @@ pub fn check_main(args: &[String]) -> i32 {
         }
     }
     agg.violations.extend(crash_violations);
+    // campaign-level oracle: no salt and no decoy digest of one run occurs in another run
+    if let Some((a, b)) = agg.token_clash {
+        let tier_e = profiles::tier_from(tier);
+        let parts: Vec<Value> = [a, b].iter().map(|i| profiles::generate(&check, run_seed(base, &check, *i), tier_e)).collect();
+        let scn = json!({"kind": "multi", "check": check, "parts": parts});
+        agg.violations.push((
+            b,
+            Violation {
+                property: check.clone(),
+                clause: "unique-across-all-issuances".into(),
+                signature: "c14:salt_or_decoy_repeated_across_runs".into(),
+                trigger: BTreeMap::new(),
+                detail: json!({"runs": [a, b]}),
+                scenario: scn,
+            },
+        ));
+    }
 
     // group violations by signature; process the first of each (bounded)
     let mut by_sig: BTreeMap<String, (u64, Violation, u64)> = BTreeMap::new();
@@ -851,6 +905,7 @@ pub fn check_main(args: &[String]) -> i32 {
             "components": {"real": cfg.real, "stub": cfg.stub},
             "determinism_sample": {"runs_reexecuted_in_other_processes": det.agg.loghashes.len(), "event_log_hash_mismatches": det_mismatch.len(), "cross_world_state_in_code_under_test": cross_world_state},
             "worker_crashes_or_hangs": agg.crashes.len(),
+            "values_compared_for_uniqueness_across_runs": agg.tokens_seen,
             "known_findings_hit": known_hits.keys().collect::<Vec<_>>(),
             "seam_level_preemption": std::env::var("SDSIM_NO_SEAM_PREEMPT").is_err(),
             "violation_signatures_seen": by_sig.iter().map(|(k, v)| json!({"signature": k, "runs": v.2})).collect::<Vec<_>>(),
@@ -860,13 +915,48 @@ pub fn check_main(args: &[String]) -> i32 {
     let edir = format!("{}/evidence", verif_dir());
     let _ = std::fs::create_dir_all(&edir);
     let epath = format!("{}/{}.json", edir, check);
+    // the alternate build leg adds itself to the evidence of the main leg
+    let evidence = if alt {
+        let leg = json!({
+            "build": "sd-jwt-rs compiled with feature mock_salts (salt queue topped up by the harness), debug-assertions off, overflow-checks off",
+            "runs": agg.runs,
+            "evaluations": agg.evaluations,
+            "distinct_nontrivial": agg.nontrivial.len(),
+            "distinct_states": agg.states.len(),
+            "faults_fired": evidence["coverage"]["faults_fired"],
+            "oracle_evaluations": evidence["coverage"]["oracle_evaluations"],
+            "wall_s": wall,
+            "violations": unknown,
+            "determinism_sample": evidence["coverage"]["determinism_sample"],
+        });
+        match std::fs::read_to_string(&epath).ok().and_then(|t| parse_json_unbounded(&t).ok()) {
+            Some(mut main) if main.get("coverage").map(Value::is_object).unwrap_or(false) && main["tier"] == json!(tier) => {
+                main["coverage"]["alternate_build_leg"] = leg;
+                if let Some(w) = main["wall_s"].as_f64() {
+                    main["wall_s"] = json!(w + wall);
+                }
+                if let Some(v) = main["violations"].as_u64() {
+                    main["violations"] = json!(v + unknown);
+                }
+                main
+            }
+            _ => {
+                let mut e = evidence.clone();
+                e["coverage"]["alternate_build_leg"] = leg;
+                e
+            }
+        }
+    } else {
+        evidence
+    };
     if let Err(e) = std::fs::write(&epath, serde_json::to_string_pretty(&evidence).unwrap_or_default()) {
         println!("HARNESS-ERROR: cannot write {}: {}", epath, e);
         return 2;
     }
     println!(
-        "summary check={} tier={} runs={} evaluations={} distinct_nontrivial={} states={} sim_seconds={} wall_s={:.1} known={} violations={}",
+        "summary check={}{} tier={} runs={} evaluations={} distinct_nontrivial={} states={} sim_seconds={} wall_s={:.1} known={} violations={}",
         check,
+        if alt { " leg=alternate-build" } else { "" },
         tier,
         agg.runs,
         agg.evaluations,
@@ -977,7 +1067,7 @@ pub fn replay_main(args: &[String]) -> i32 {
 pub fn determinism_main(args: &[String]) -> i32 {
     let runs = parse_flag(args, "--runs").unwrap_or(200);
     let base = base_seed();
-    let checks: Vec<&str> = if cfg!(feature = "mock") { vec!["C16"] } else { vec!["C02", "C03", "C04", "C07", "C08", "C09", "C10", "C11", "C12", "C14", "C15"] };
+    let checks: Vec<&str> = if alt_leg() { ALT_LEG_CHECKS.to_vec() } else if cfg!(feature = "mock") { vec!["C16"] } else { vec!["C02", "C03", "C04", "C07", "C08", "C09", "C10", "C11", "C12", "C14", "C15"] };
     let mut bad = 0;
     for c in checks {
         let a = run_batch(c, "quick", base, 0, runs, 16, Duration::from_secs(1200));
